@@ -118,10 +118,10 @@ func scenarioConfigs() []*config {
 		{
 			Name: "S10-retry-limit", Props: core,
 			Bounds: tiny, Shards: 1,
-			Doc:         "a worker keeps re-requesting the task it was given (crash loop); WorkerTaskRetryCount=1",
+			Doc:         "a worker keeps re-requesting the task it was given (crash loop: receive task, possibly report that it is executing, restart idle, receive the same task again ...); WorkerTaskRetryCount=1",
 			Predeclared: pre0, MaxTicks: 2,
 			Clients: []clientSpec{{Name: "c1", Calls: []string{"exec A i1"}}},
-			Workers: []workerSpec{{Name: "w1", MaxCalls: 4, Busy: []string{"idle", "wrong", "ok"}}},
+			Workers: []workerSpec{{Name: "w1", MaxCalls: 6, Busy: []string{"idle", "exec", "wrong", "ok"}}},
 		},
 		{
 			Name: "S11-background-learning", Props: core,
@@ -203,6 +203,44 @@ func scenarioConfigs() []*config {
 			Predeclared: pre0, MaxTicks: 5, IdleSync: 5,
 			Workers: []workerSpec{{Name: "w1", MaxCalls: 3, Busy: []string{"sleep2", "ok", "exec"}}},
 			Clients: []clientSpec{{Name: "c1", Stage: 1, Calls: []string{"exec A i1"}}},
+		},
+		{
+			Name: "S17-kill-vs-garbage-collection", Props: []string{"C01", "C02", "C03", "C06", "C07", "C14"},
+			Bounds: tiny, Shards: 1,
+			Doc:         "operator KillOperations(by name) || the operation's only client leaves || no-waiter timeout 1: the operation may be garbage collected while KillOperations sits in its authorizer between its two critical sections; a second client then re-attaches by name and the operator polls",
+			Predeclared: pre0, MaxTicks: 3, NoWaiter: 1,
+			Clients: []clientSpec{
+				{Name: "c1", Calls: []string{"exec A i1"}, Cancels: 1},
+				{Name: "c2", Stage: 2, Calls: []string{"wait c1.0"}},
+			},
+			Operators: []operatorSpec{{Name: "op", Stage: 1, Calls: []string{"kill c1.0", "list"}}},
+		},
+		{
+			Name: "S18-reattach-window-bystander", Props: []string{"C02", "C03", "C06", "C14"},
+			Doc:         "two invocations share one queued task; c1 never leaves; c2 leaves, re-attaches with WaitExecution (the clock may advance past the no-waiter timeout 1 while it sits in the authorizer between the two critical sections of WaitExecution) and leaves again; the worker arrives late or never",
+			Predeclared: pre0, MaxTicks: 4, NoWaiter: 1, Bounds: b1,
+			Clients: []clientSpec{
+				{Name: "c1", Calls: []string{"exec A i1"}},
+				{Name: "c2", Calls: []string{"exec A i2", "wait c2.0"}, Cancels: 2},
+			},
+			Workers: []workerSpec{{Name: "w1", Stage: 1, MaxCalls: 2, Busy: []string{"ok"}}},
+		},
+		{
+			Name: "S19-reissue-same-invocation", Props: []string{"C02", "C03", "C06"},
+			Doc:         "a client whose Execute was cut off re-issues Execute for the same action from the same invocation (it waits on its old operation again) while the old operation's abandonment timer is still pending; a second invocation shares the task; a slow worker holds it",
+			Predeclared: pre0, MaxTicks: 3, NoWaiter: 1, WorkerTimeout: 5, Bounds: b1,
+			Clients: []clientSpec{
+				{Name: "c1", Calls: []string{"exec A i1", "exec A i1"}, Cancels: 2},
+				{Name: "c2", Calls: []string{"exec A i2"}},
+			},
+			Workers: []workerSpec{{Name: "w1", MaxCalls: 2, Busy: []string{"sleep3", "ok"}}},
+		},
+		{
+			Name: "S20-completion-during-send", Props: []string{"C02", "C03", "C06"},
+			Doc:         "every Send is a scheduling point (message in flight, scheduler lock free): the worker takes and completes the task while the update of one of two clients of the same operation is in flight",
+			Predeclared: pre0, MaxTicks: 2, SendPoint: true,
+			Clients: []clientSpec{{Name: "c1", Calls: []string{"exec A i1"}}, {Name: "c2", Calls: []string{"exec A i1"}, Cancels: 1}},
+			Workers: []workerSpec{{Name: "w1", MaxCalls: 3, Busy: []string{"ok", "exec"}}},
 		},
 		{
 			Name: "S12-crash-points", Props: []string{"C01", "C02", "C06", "C07"},
